@@ -123,7 +123,7 @@ fn fullmatch(req: &Value) -> Value {
 fn build_dense(src: &str, lit: bool) -> Result<dense::DFA<Vec<u32>>, String> {
     let pat = if lit { regex_syntax::escape(src) } else { src.to_string() };
     dense::Builder::new()
-        .configure(dense::Config::new().start_kind(regex_automata::dfa::StartKind::Anchored).dfa_size_limit(Some(64 << 20)).determinize_size_limit(Some(64 << 20)))
+        .configure(dense::Config::new().match_kind(regex_automata::MatchKind::All).start_kind(regex_automata::dfa::StartKind::Anchored).dfa_size_limit(Some(64 << 20)).determinize_size_limit(Some(64 << 20)))
         .syntax(SyntaxConfig::new().unicode(true).utf8(true))
         .build(&pat)
         .map_err(|e| e.to_string())
@@ -138,6 +138,20 @@ fn intersect(req: &Value) -> Value {
         Ok(d) => d,
         Err(e) => return json!({"error": e}),
     };
+    // optional: patterns of higher precedence; a common string only counts if none of them
+    // matches it entirely (then the runtime would pick that one and there is no tie)
+    let mut minus = vec![];
+    if let Some(ms) = req.get("minus").and_then(|m| m.as_array()) {
+        for m in ms {
+            match build_dense(m["src"].as_str().unwrap(), m["kind"] == "lit") {
+                Ok(d) => minus.push(d),
+                Err(e) => return json!({"error": e}),
+            }
+        }
+    }
+    if !minus.is_empty() {
+        return intersect_minus(&a, &b, &minus);
+    }
     let inp = Input::new("").anchored(Anchored::Yes);
     let sa = a.start_state_forward(&inp).unwrap();
     let sb = b.start_state_forward(&inp).unwrap();
@@ -190,6 +204,72 @@ fn intersect(req: &Value) -> Value {
         Some(w) => json!({"overlap": true, "witness": String::from_utf8_lossy(&w), "witness_hex": w.iter().map(|b| format!("{:02x}", b)).collect::<String>(), "empty_overlap": empty_overlap}),
         None => json!({"overlap": false, "empty_overlap": empty_overlap, "product_states": explored}),
     }
+}
+
+type D = dense::DFA<Vec<u32>>;
+
+fn intersect_minus(a: &D, b: &D, minus: &[D]) -> Value {
+    let inp = Input::new("").anchored(Anchored::Yes);
+    let mut start = vec![a.start_state_forward(&inp).unwrap(), b.start_state_forward(&inp).unwrap()];
+    for m in minus {
+        start.push(m.start_state_forward(&inp).unwrap());
+    }
+    let all: Vec<&D> = std::iter::once(a).chain(std::iter::once(b)).chain(minus.iter()).collect();
+    let keyof = |v: &Vec<regex_automata::util::primitives::StateID>| v.iter().map(|s| s.as_u32()).collect::<Vec<u32>>();
+    let mut seen: HashMap<Vec<u32>, Option<(Vec<u32>, u8)>> = HashMap::new();
+    let mut q = VecDeque::new();
+    seen.insert(keyof(&start), None);
+    q.push_back(start);
+    let mut explored = 0usize;
+    let mut empty_overlap = false;
+    while let Some(st) = q.pop_front() {
+        explored += 1;
+        if explored > 1_000_000 {
+            return json!({"error": "product too large"});
+        }
+        let ea = a.next_eoi_state(st[0]);
+        let eb = b.next_eoi_state(st[1]);
+        if a.is_match_state(ea) && b.is_match_state(eb) {
+            let mut beaten = false;
+            for (i, m) in minus.iter().enumerate() {
+                if m.is_match_state(m.next_eoi_state(st[2 + i])) {
+                    beaten = true;
+                }
+            }
+            if !beaten {
+                let mut w = vec![];
+                let mut cur = keyof(&st);
+                while let Some(Some((prev, byte))) = seen.get(&cur) {
+                    w.push(*byte);
+                    cur = prev.clone();
+                }
+                w.reverse();
+                if w.is_empty() {
+                    empty_overlap = true;
+                } else {
+                    return json!({"overlap": true, "witness": String::from_utf8_lossy(&w), "witness_hex": w.iter().map(|b| format!("{:02x}", b)).collect::<String>(), "empty_overlap": empty_overlap});
+                }
+            }
+        }
+        for byte in 0u16..256 {
+            let byte = byte as u8;
+            let na = a.next_state(st[0], byte);
+            let nb = b.next_state(st[1], byte);
+            if a.is_dead_state(na) || b.is_dead_state(nb) {
+                continue;
+            }
+            let mut nx = vec![na, nb];
+            for (i, m) in all.iter().enumerate().skip(2) {
+                nx.push(m.next_state(st[i], byte));
+            }
+            let k = keyof(&nx);
+            if !seen.contains_key(&k) {
+                seen.insert(k, Some((keyof(&st), byte)));
+                q.push_back(nx);
+            }
+        }
+    }
+    json!({"overlap": false, "empty_overlap": empty_overlap, "product_states": explored})
 }
 
 fn flatten(ts: proc_macro2::TokenStream, out: &mut Vec<String>) {
